@@ -75,7 +75,11 @@ def gen_event(rng, upgraded):
         # two attachment names sharing one id
         atts.setdefault('bin', {})[next(iter(atts['doc']))] = base64.b64encode(b'same id').decode()
     parents = ['%040x' % rng.getrandbits(160) for _ in range(rng.randint(0, 2))]
-    foreign = {'{http://foreign/ns}note': tricky_string(rng).replace('\r', ' ')} if rng.random() < 0.3 else {}
+    foreign = {}
+    if rng.random() < 0.35:
+        # foreign namespaces, also ones that merely START like the EDXML namespace
+        for ns in rng.sample(['http://foreign/ns', 'http://edxml.org/edxml/ext', 'http://edxml.org/edxmlx', 'urn:x'], rng.randint(1, 2)):
+            foreign['{%s}note' % ns] = tricky_string(rng).replace('\r', ' ')
     return {'type': 'ta', 'source': '/s/', 'props': props, 'atts': atts, 'parents': parents, 'foreign': foreign}
 
 
